@@ -777,7 +777,7 @@ class OpenDocument:
             self.rebuild_caches()
         result=self._styles_dict.get(ncname, None)
 
-        assert(isinstance(result, element.Element))
+        assert(result is None or isinstance(result, element.Element))
         return result
 
     def getElementsByType(self, elt):
